@@ -13,7 +13,7 @@ TESTS=$(bash /verif/tools/baseline_off.sh "$WT" | tail -1)
 echo "[$ID] $TESTS"
 RES=""
 for P in $PROPS; do
-  L=$(VERIF_REPO="$WT" timeout 2400 python3 /verif/tools/check.py "$P" --tier quick 2>&1 | grep -E "^VIOLATION" | head -3 | tr '\n' ' ')
+  L=$(VERIF_EVIDENCE_DIR=/var/tmp/verif_side_evidence VERIF_REPO="$WT" timeout 2400 python3 /verif/tools/check.py "$P" --tier quick 2>&1 | grep -E "^VIOLATION" | head -3 | tr '\n' ' ')
   if [ -n "$L" ]; then echo "[$ID] $P: FALSE-ALARM? $L"; RES="$RES $P:alarm"; mkdir -p "$OUT/replays"; cp /verif/replays/${P}_quick_1.json "$OUT/replays/" 2>/dev/null; else RES="$RES $P:quiet"; fi
 done
 echo "[$ID] result:$RES"
